@@ -336,6 +336,15 @@ class Check:
                 self.proof_broken("tools/translate_codec.py: the value codecs of genapi/src/utils.rs no longer have the shape "
                                   "the translator accepts (%s): gen/CodecSrc.v cannot be regenerated" % e)
                 return False
+        if pid == "C18":
+            import translate_access
+            try:
+                translate_access.regenerate(REPO)
+            except (translate_access.ShapeError, OSError) as e:
+                self.proof_broken("tools/translate_access.py: the access-restriction core (node_base.rs / register_base.rs / the "
+                                  "register features) no longer has the shape the translator accepts (%s): gen/AccessSrc.v "
+                                  "cannot be regenerated" % e)
+                return False
         if pid == "C02":
             import translate_bitmask
             try:
@@ -361,6 +370,7 @@ class Check:
                                   "translator accepts (%s): gen/ElemNames.v cannot be regenerated" % e)
                 return False
         tr = {"C01": "tools/translate_codec.py (macro arms and match arms of int_from_slice / bytes_from_int / float_from_slice / bytes_from_float, genapi/src/utils.rs -> gen/CodecSrc.v) and lib/RustBytes.v (from_xx_bytes / to_xx_bytes / copy_from_slice)",
+              "C18": "tools/translate_access.py (NodeElementBase / RegisterBase is_readable, is_writable and the three controls, genapi/src/node_base.rs + register_base.rs -> gen/AccessSrc.v over model/AccessOps.v)",
               "C02": "tools/translate_bitmask.py (typed mini-Rust translator of `impl BitMask`, genapi/src/masked_int_reg.rs -> gen/BitMaskSrc.v) and lib/RustInt.v (debug-build semantics of the integer operations)",
               "C08": "tools/translate_proto.py (protocol tables -> gen/ProtoTables.v) and tools/translate_ackparse.py (typed mini-Rust translator of AckPacket::parse / AckCcd::parse / Status::parse / ScdKind::parse, the five ParseScd views behind scd_as, EventPacket::parse / EventCcd::parse / EventScd::parse with its loop and read_and_seek, device/src/u3v/protocol/{ack,event}.rs -> gen/AckParseSrc.v; cursor reads, seeks and slicing interpreted by model/CurOps.v; `while` loops become fuelled Fixpoints; shape of read_bytes_le in impl/src/bytes_io.rs and of u3v::Error asserted) and lib/RustInt.v (debug-build semantics of the integer operations)", "C09": "tools/translate_proto.py (protocol tables -> gen/ProtoTables.v) and tools/translate_serialize.py (typed mini-Rust translator of the structs, the trait CommandScd and its four implementations, the constructors, the length functions and every serializer of device/src/u3v/protocol/cmd.rs -> gen/SerializeSrc.v; serializers become lists of write operations interpreted by model/SerOps.v; shape of write_bytes_le in impl/src/bytes_io.rs asserted) and lib/RustInt.v (debug-build semantics of the integer operations)",
               "C11": "tools/translate_proto.py (protocol tables -> gen/ProtoTables.v) and tools/translate_streamparse.py (typed mini-Rust translator of Leader::parse / Trailer::parse, the specific leaders and trailers, the TryFrom<u16> tables and the getters of device/src/u3v/protocol/stream.rs, of every method of PayloadBuilder in cameleon/src/u3v/stream_handle.rs and of Payload::image_info / image / payload / into_vec in cameleon/src/payload.rs -> gen/StreamParseSrc.v; cursor reads, slicing and the chunk-walk loop are interpreted by model/RdOps.v; shape of read_bytes_le in impl/src/bytes_io.rs, of `#[from] std::io::Error` and of the `use` lines asserted) and lib/RustInt.v (debug-build semantics of the integer operations)",
